@@ -95,6 +95,11 @@ func c14Run(c *harness.Check, cs detCase, n int) string {
 			for _, src := range c14Disturbers {
 				harness.Safe(func() { textwire.EvaluateString(src, map[string]any{"nums": []int{3, 4, 0, 6}}) })
 			}
+			// ... nor are renders without any data that bind the names the cases use, with other types
+			for _, bind := range []string{`{{ x = 1 }}`, `{{ obj = "s" }}`, `{{ o = 2.5 }}`, `{{ cfg = true }}`, `{{ i = "s" }}`, `{{ e = [1] }}`, `{{ v = {a: 1} }}`, `{{ name = 7 }}`} {
+				harness.Safe(func() { textwire.EvaluateString(bind, nil) })
+				harness.Safe(func() { textwire.EvaluateString(bind, map[string]any{}) })
+			}
 		}
 		again, ok := c14Outcome(c, cs)
 		if !ok {
@@ -409,7 +414,7 @@ func TestC14_Probe(t *testing.T) {
 
 func TestC14_Processes(t *testing.T) {
 	c := harness.New(t, "C14", "processes",
-		"a sample of the object-printing, misplaced-object and multi-fault cases rendered once in each of 3 fresh processes (the test binary re-executes itself; each process has its own map hash seed): the three outcomes and the in-process outcome must be identical. Non-trivial: all. Distinct by hash.")
+		"a sample of the object-printing, misplaced-object, multi-fault and data-less (names bound at template level) cases rendered once in each of 3 fresh processes (the test binary re-executes itself; each process has its own map hash seed): the three outcomes and the in-process outcome must be identical. Non-trivial: all. Distinct by hash.")
 	defer c.Finish()
 	if os.Getenv("VERIF_PROBE_CASE") != "" {
 		return
@@ -426,7 +431,14 @@ func TestC14_Processes(t *testing.T) {
 	defer os.RemoveAll(dir)
 	runRapid(t, c, 12, 180, func(rt *rapid.T) {
 		cs := detCase{Kind: "processes"}
-		if k := rapid.IntRange(0, 2).Draw(rt, "caseKind"); k == 0 {
+		if k := rapid.IntRange(0, 3).Draw(rt, "caseKind"); k == 3 {
+			// no data at all, names bound at template level (with types other renders of this process
+			// have not used for them): what a fresh process gives is what this one gives
+			cs.Src = rapid.SampledFrom([]string{`{{ x = 2.5 }}{{ o = [1] }}{{ cfg = nil }}[{{ x }}]`, `{{ x = "s"; obj = 2.5; i = [0] }}[{{ x }}{{ obj }}]`, `{{ name = {a: 1} }}{{ v = "v" }}{{ e = 1.5 }}[{{ v }}]`}).Draw(rt, "noData")
+			if rapid.Bool().Draw(rt, "emptyMap") {
+				cs.Data = &spec.Data{}
+			}
+		} else if k == 0 {
 			cs.Src = "{{ " + tw.ExprString(genObjExpr(rt, 1), nil) + " }}@dump(obj)"
 			cs.Data = (&spec.Data{}).Add("obj", genObjData(rt, 1))
 		} else if k == 1 {
